@@ -38,7 +38,7 @@ def gen_case(streams, tier):
     g = streams['gen']
     classes = g.choice([['bit', 'small'], ['small'], ['bit', 'small'], ['small', 'mid']])
     cfg = gen.make_cfg(nets=(2, 10), classes=classes, max_mul_width=6, mem_wide_aw=0.0,
-                       mem_aw=(1, 4), rom_aw_max=3, regs=(0, 3), mems=(0, 1), roms=(0, 1),
+                       mem_aw=(1, 4), rom_aw_max=3, regs=(0, 3), mems=(0, 2), roms=(0, 1),
                        max_concat=24, class_pool=['bit', 'small'])
     if 'mid' in classes:
         cfg['ops'] = 'w~&|^n+-<>=xcs'     # no multiplier at 9..24 bits: O(n^2) nets
@@ -133,6 +133,12 @@ def run(case, res):
                          {'keys': [getattr(k, 'name', '?') for k in syn.mem_map],
                           'orig_key_found': [any(k is m for k in syn.mem_map) for m in used_mems]},
                          tags0 + ['mem_map'])
+    for m in used_mems:
+        for k, v in syn.mem_map.items():
+            if k is m and (v.id != m.id or v.bitwidth != m.bitwidth or v.addrwidth != m.addrwidth
+                           or type(v) is not type(m) or v.name != m.name):
+                return Violation('maps', 'mem_map_pairs_memory_with_another_memory',
+                                 {'original': m.name, 'mapped_to': v.name}, tags0 + ['mem_map'])
     for w in ios:
         lst = syn.io_map[w]
         want = 1 if case['merge'] else w.bitwidth
